@@ -401,7 +401,7 @@ Proof.
     destruct (refer_filter_inv f m Mr Mrn Mp) as [Mr2 [Mrn2 Mp2]].
     cbn [fst snd]. split; [|split; [|exact Ho']].
     + constructor; unfold all_ids; cbn [snext srefer spadd spdel score core_content]; assumption.
-    + unfold rel. cbn [zclock zrefer znext zreq zdels zpending zwheel ztt sclock srefer snext spadd spdel score core_content].
+    + unfold rel, tick_clock. rewrite Ec. cbn [zclock zrefer znext zreq zdels zpending zwheel ztt sclock srefer snext spadd spdel score core_content].
       repeat (split; [assumption || reflexivity|]). symmetry. exact Ht'.
   - rewrite Rk, Rc, Rr.
     assert (Hnd : NoDup (map nid h)) by (apply nodup_app_elim in Mi; tauto).
@@ -415,7 +415,7 @@ Proof.
     destruct (refer_filter_inv f m Mr Mrn Mp) as [Mr2 [Mrn2 Mp2]].
     split; [|split; [|exact Ho']].
     + constructor; unfold all_ids; cbn [snext srefer spadd spdel score core_content]; assumption.
-    + unfold rel. cbn [zclock zrefer znext zreq zdels zpending zwheel ztt sclock srefer snext spadd spdel score core_content].
+    + unfold rel, tick_clock. rewrite Ec. cbn [zclock zrefer znext zreq zdels zpending zwheel ztt sclock srefer snext spadd spdel score core_content].
       repeat (split; [assumption || reflexivity|]). reflexivity.
 Qed.
 
